@@ -299,6 +299,19 @@ template <class G> std::string allCtors(const Built<G> &b, Rng &r, bool directed
         if ((e = ctorCheck<G, std::forward_list<Edge>>("std::forward_list", items, directed)) != "") return e;
         if ((e = ctorCheck<G, std::set<Edge>>("std::set", items, directed)) != "") return e;
         if ((e = ctorCheck<G, std::multiset<Edge>>("std::multiset", items, directed)) != "") return e;
+        // the unlabelled classes also accept containers of (i, j, NoLabel) entries
+        using T = LabeledEdge<L>;
+        std::vector<T> litems;
+        for (auto &ed : items) litems.push_back(T{ed.first, ed.second, L()});
+        if (!directed && !litems.empty() && r.chance(1, 2)) { // the same pair once more, the other way round
+            T rev = litems[r.u((unsigned)litems.size())];
+            std::swap(std::get<0>(rev), std::get<1>(rev));
+            litems.push_back(rev);
+        }
+        if ((e = ctorCheck<G, std::vector<T>>("std::vector of (i,j,NoLabel)", litems, directed)) != "") return e;
+        if ((e = ctorCheck<G, std::list<T>>("std::list of (i,j,NoLabel)", litems, directed)) != "") return e;
+        if ((e = ctorCheck<G, std::deque<T>>("std::deque of (i,j,NoLabel)", litems, directed)) != "") return e;
+        if ((e = ctorCheck<G, std::forward_list<T>>("std::forward_list of (i,j,NoLabel)", litems, directed)) != "") return e;
     } else {
         using T = LabeledEdge<L>;
         std::vector<T> items;
